@@ -196,7 +196,7 @@ def len_prog(el, n, where, W):
     return prog([], funcs + [func('empty', '@is_you', [('int', 'fz')], *body)]), [str(len_value(n, el, W))]
 
 
-def nlp_prog(shape, follow, kind):
+def nlp_prog(shape, follow, kind, tail=()):
     pre = preempt(write(S('P')), setv('flag', I(1)))
     inner = {
         'direct': [pre],
@@ -215,7 +215,7 @@ def nlp_prog(shape, follow, kind):
         'unreachable': [if_(B(False), block(preempt()))],
         'none': [],
     }[shape]
-    d = func('empty', '!pd', [('int', 'a')], decl('int', 'flag', I(0)), write(S('d')), *inner, write(V('flag')))
+    d = func('empty', '!pd', [('int', 'a')], decl('int', 'flag', I(0)), write(S('d')), *inner, write(V('flag')), *tail)
     body = [write(S('t')), ex(call('!pd', V('q')))]
     if follow == 'defeat':
         body.append(ex(call('!is_defeat')))
